@@ -308,12 +308,18 @@ pub fn run_scenario(sc: &Scenario, trace: Trace, spy: bool) -> Vec<CallRecord> {
     if let Some(st) = &sc.steer {
         // resolve the steering recipe into a concrete fuzzer script (executes the generator on the
         // growing prefixes, in this process), then run that
-        let ops: Vec<&'static str> = st.ops.iter().filter_map(|n| crate::lexer::by_name(n).map(|i| i.name)).collect();
-        let prog = crate::synth::Program { ops };
-        let Some(mut script) = crate::synth::steer(sc.config.protocol, &prog) else {
+        let compact = st.ops.iter().any(|t| t.contains('*'));
+        let (script, mut n) = if compact {
+            (crate::synth::steer_tokens(sc.config.protocol, &st.ops), crate::synth::token_ops(&st.ops))
+        } else {
+            let ops: Vec<&'static str> = st.ops.iter().filter_map(|n| crate::lexer::by_name(n).map(|i| i.name)).collect();
+            let prog = crate::synth::Program { ops };
+            let n = prog.ops.len();
+            (crate::synth::steer(sc.config.protocol, &prog), n)
+        };
+        let Some(mut script) = script else {
             return vec![];
         };
-        let mut n = prog.ops.len();
         if let Some(b) = st.tail {
             script.push(b);
             n += 1;
@@ -367,6 +373,10 @@ pub fn run_scenario(sc: &Scenario, trace: Trace, spy: bool) -> Vec<CallRecord> {
             HOp::SetMutators(m) => {
                 cfg.mutators = m.clone();
                 g.mutators = make_mutators(&cfg.mutators, cfg.unsafe_mutations, &spy_log);
+            }
+            HOp::SetProtocol(p) => {
+                g.state.version = version(*p);
+                cfg.protocol = *p;
             }
             HOp::Gen(e) => {
                 match trace {
